@@ -78,7 +78,8 @@ def run_search_family(prop, tier, props_arg, level="model_checking", families=No
                 rp = os.path.join(work, f"rep_{i}.json")
                 fp = os.path.join(work, f"fail_{i}.ndjson")
                 cmd = [vh, sub, "-in", out, "-props", props_arg, "-report", rp, "-fail", fp] + \
-                      [a.replace("{i}", str(i)).replace("{work}", work) for a in (extra_args or [])]
+                      [a.replace("{i}", str(i)).replace("{work}", work) for a in (extra_args or []) if a != "-corpus-first"] + \
+                      (["-corpus"] if "-corpus-first" in (extra_args or []) and i == 0 else [])
                 p = subprocess.run(cmd, capture_output=True, text=True, timeout=3000)
                 if per_output and p.returncode == 0:
                     try:
@@ -332,7 +333,7 @@ def backtrack_stages(prop, tier):
 
 
 def c13(prop, tier):
-    return run_search_family(prop, tier, prop, subcmd="history", budget_scale=0.5 if tier == "quick" else 0.7,
+    return run_search_family(prop, tier, prop, subcmd="history", budget_scale=0.5 if tier == "quick" else 0.7, extra_args=["-corpus-first"],
                              stages=[object_stage(prop, tier)] + backtrack_stages(prop, tier),
                              rule="relational (aged value vs freshly compiled value): every haystack of a TLC-generated record in order through a "
                                   "rotating API on one aged value per pattern and mode, each call repeated, GC in between, first calls repeated at the "
